@@ -118,6 +118,27 @@ def gen_batch(rng, thorough: bool, max_records: int, null_header_keys: bool = Fa
 _ZONES: list | None = None
 
 
+def tiny_records_batch(rng, n: int | None = None) -> tuple[dict, dict]:  # noqa: ANN001
+    """Many records of the smallest possible encoding (7-9 bytes each: null/empty key and value, no headers, one-byte deltas): the record
+    count is large compared with the batch length, which any plausibility bound on the count has to get right."""
+    n = n or rng.choice((49, 50, 51, 64, 100, 127, 128, 300, 1000, 4000))
+    base_off = rng.choice((0, 1, 2**40))
+    t0 = rng.choice((0, 1000, 1_700_000_000_000))
+    shape = rng.choice(("all-null", "all-empty", "mixed"))
+    recs = []
+    for k in range(n):
+        key = None if shape == "all-null" else b"" if shape == "all-empty" else rng.choice((None, b"", b"k"))
+        val = None if shape == "all-null" else b"" if shape == "all-empty" else rng.choice((None, b"", b"v"))
+        recs.append({"attributes": 0, "timestamp_delta": 0 if shape != "mixed" else rng.choice((0, 0, 1, 63)), "offset_delta": k if k < 64 or shape == "mixed" else rng.choice((k, 63)),
+                     "key": key, "value": val, "headers": []})
+    recs[0]["timestamp_delta"] = recs[0]["offset_delta"] = 0  # the first record defines the base of a newly written batch
+    offs = [base_off + r["offset_delta"] for r in recs]
+    ts = [t0 + r["timestamp_delta"] for r in recs]
+    b = {"base_offset": base_off, "partition_leader_epoch": 0, "attributes": 0, "last_offset_delta": recs[-1]["offset_delta"], "base_timestamp": t0,
+         "max_timestamp": max(ts), "producer_id": -1, "producer_epoch": -1, "base_sequence": -1, "records": recs, "_abs": {"offsets": offs, "timestamps": ts}}
+    return b, {"n": ">20", "order": "tiny-records", "time": "whole_seconds" if shape != "mixed" else "near_epoch", "kv": ["k:" + shape, "v:" + shape]}
+
+
 def _zones() -> list:
     """Time zones a record timestamp may be expressed in (the instant is what goes on the wire)."""
     global _ZONES
@@ -170,7 +191,7 @@ def c17_worker(res: Result, i: int, n: int) -> None:
     distinct: set[bytes] = set()
     for k in range(i, total, n):
         rng = common.rng_for("C17", k)
-        b, cell = gen_batch(rng, thorough, 60 if not thorough else 200, null_header_keys=True)
+        b, cell = tiny_records_batch(rng) if k % 97 == 5 else gen_batch(rng, thorough, 60 if not thorough else 200, null_header_keys=True)
         null_key = any(hk is None for r in b["records"] for hk, _ in r["headers"])
         cells.add((cell["n"], cell["order"], cell["time"]))
         for kv in cell["kv"]:
@@ -542,6 +563,11 @@ def c18_worker(res: Result, i: int, n: int) -> None:
                 res.count("compacted_batches_first_timestamp_delta_nonzero")
             cell = dict(cell, order=cell["order"] + "+compacted")
         work.append((f"generated #{k} {cell['n']}/{cell['order']}/{cell['time']}", recref.encode_batch(b), b))
+    for k in range(i, 24 if res.tier == "quick" else 400, n):
+        rng = common.rng_for("C18", "tiny", k)
+        b, cell = tiny_records_batch(rng, (49, 50, 51, 64, 100, 128, 300, 1000)[k % 8] if k < 16 else None)
+        res.count("batches_of_many_tiny_records")
+        work.append((f"tiny-records #{k} n={len(b['records'])}/{cell['kv'][0]}", recref.encode_batch(b), b))
     prev_raw = None
     for label, raw, b in work:
         rng = common.rng_for("C18", "damage", label)
